@@ -9,6 +9,9 @@
     n < 2 raises AdaptationError before dividing, single-chain exp(smoothed) / multi-chain reducer
  R3 initial step-size search: threshold log 2, halving and doubling are reciprocal, halving is
     chosen when the step is too big (and on IntegratorError)
+ R4 initial values of the recursions: `initialize` returns iter 0 and zero accumulators; the
+    regularisation target is the user's value for *every* non-None value (0 included) and
+    log(10 * init_step_size) only for None (case analysis None / not-None of the option)
 """
 
 from __future__ import annotations
@@ -273,6 +276,167 @@ def rule_r3(rep, program: Program):
     return r
 
 
+class _InitExec:
+    """Case-split evaluation of an `initialize` body: the optional setting `opt` is either None or
+    an arbitrary non-None number (possibly 0, so its truthiness is unknown)."""
+
+    TRUTHY = "<depends on the truthiness of the option value>"
+
+    def __init__(self, opt: str, is_none: bool, qual: str):
+        self.opt, self.is_none, self.qual = opt, is_none, qual
+        self.env: dict[str, object] = {}
+
+    def none_test(self, t: ast.expr):
+        """True / False when `t` decides the None-ness of the option, else None."""
+        if isinstance(t, ast.Compare) and len(t.ops) == 1 and norm(t.left) == self.opt and norm(t.comparators[0]) == "None":
+            if isinstance(t.ops[0], ast.Is):
+                return self.is_none
+            if isinstance(t.ops[0], ast.IsNot):
+                return not self.is_none
+        if isinstance(t, ast.UnaryOp) and isinstance(t.op, ast.Not):
+            inner = self.none_test(t.operand)
+            return None if inner is None else not inner
+        return None
+
+    def ev(self, e: ast.expr):
+        if isinstance(e, ast.Dict):
+            out = {}
+            for k, v in zip(e.keys, e.values):
+                if k is None:
+                    inner = self.ev(v)
+                    if not isinstance(inner, dict):
+                        raise AnalysisError(f"{self.qual}: ** of a non-literal in the adapter state")
+                    out.update(inner)
+                elif isinstance(k, ast.Constant):
+                    out[k.value] = self.ev(v)
+                else:
+                    raise AnalysisError(f"{self.qual}: non-constant adapter-state key")
+            return out
+        if isinstance(e, ast.Call) and norm(e.func) == "dict" and not e.args:
+            return {k.arg: self.ev(k.value) for k in e.keywords}
+        if isinstance(e, ast.IfExp):
+            d = self.none_test(e.test)
+            if d is not None:
+                return self.ev(e.body if d else e.orelse)
+            if self.opt in norm(e.test):
+                return self.TRUTHY if not self.is_none else self.ev(e.orelse if norm(e.test) == self.opt else e.body)
+        if isinstance(e, ast.BoolOp) and any(norm(v) == self.opt for v in e.values[:-1]):
+            if isinstance(e.op, ast.Or) and norm(e.values[0]) == self.opt and len(e.values) == 2:
+                return self.ev(e.values[1]) if self.is_none else self.TRUTHY
+            return self.TRUTHY
+        if isinstance(e, ast.Name) and e.id in self.env:
+            return self.env[e.id]
+        if isinstance(e, ast.Name) or isinstance(e, ast.Constant) or isinstance(e, ast.Attribute):
+            return norm(e)
+        # any other expression: canonical text with local names expanded
+        class Sub(ast.NodeTransformer):
+            def visit_Name(s, n):  # noqa: N805
+                v = self.env.get(n.id)
+                if isinstance(v, str) and v != self.TRUTHY:
+                    return ast.parse(v, mode="eval").body
+                return n
+        import copy as _copy
+
+        return norm(Sub().visit(_copy.deepcopy(e)))
+
+    def run(self, stmts):
+        for st in stmts:
+            if isinstance(st, ast.Expr) and isinstance(st.value, ast.Constant):
+                continue
+            if isinstance(st, (ast.Assign, ast.AnnAssign)):
+                tgt = st.targets[0] if isinstance(st, ast.Assign) else st.target
+                val = self.ev(st.value)
+                if isinstance(tgt, ast.Name):
+                    self.env[tgt.id] = val
+                elif isinstance(tgt, ast.Subscript) and isinstance(tgt.value, ast.Name) and isinstance(self.env.get(tgt.value.id), dict) and isinstance(tgt.slice, ast.Constant):
+                    self.env[tgt.value.id][tgt.slice.value] = val
+                else:
+                    raise AnalysisError(f"{self.qual}: assignment target outside the grammar: {norm(tgt)}")
+                continue
+            if isinstance(st, ast.If):
+                d = self.none_test(st.test)
+                if d is None:
+                    if self.opt in norm(st.test) and not self.is_none:
+                        # truthiness test of the option: both arms possible for a non-None value
+                        a = self._fork(st.body)
+                        b = self._fork(st.orelse)
+                        if a != b:
+                            return self.TRUTHY
+                        continue
+                    if self.opt in norm(st.test):
+                        d = norm(st.test) != self.opt  # `if opt:` is False for None, `if not opt:` True
+                    else:
+                        raise AnalysisError(f"{self.qual}: branch outside the grammar: {norm(st.test)[:50]}")
+                res = self.run(st.body if d else st.orelse)
+                if res is not None:
+                    return res
+                continue
+            if isinstance(st, ast.Return):
+                return self.ev(st.value)
+            raise AnalysisError(f"{self.qual}: statement outside the grammar: {type(st).__name__}")
+        return None
+
+    def _fork(self, stmts):
+        import copy as _copy
+
+        sub = _InitExec(self.opt, self.is_none, self.qual)
+        sub.env = _copy.deepcopy(self.env)
+        sub.run(stmts)
+        return sub.env
+
+
+def _is_zero_value(v) -> bool:
+    if not isinstance(v, str):
+        return False
+    if v in ("0", "0.0"):
+        return True
+    try:
+        e = ast.parse(v, mode="eval").body
+    except SyntaxError:
+        return False
+    return isinstance(e, ast.Call) and norm(e.func) in ("np.zeros", "np.zeros_like", "zeros", "zeros_like")
+
+
+def rule_r4(rep, program: Program):
+    r = rep.rule("R4", "initialize starts every recursion at its documented initial value; the optional regularisation target is honoured for every non-None value (0 included)", floor=10)
+    f = program.method("DualAveragingStepSizeAdapter", "initialize")
+    opt = "self.log_step_size_reg_target"
+    for is_none in (True, False):
+        ex = _InitExec(opt, is_none, f.qualname)
+        res = ex.run(f.body_without_docstring())
+        case = "option is None" if is_none else "option is a number (possibly 0)"
+        if res == _InitExec.TRUTHY or not isinstance(res, dict):
+            r.inst({"case": case, "state": str(res)[:80]})
+            r.violate(PROP, f"{f.qualname}:state-depends-on-truthiness", f"with {case} the returned adapter state depends on the truthiness of {opt}: an explicit 0.0 is a valid target (regularise towards step size 1) and must not be treated as 'not given'", node=f.node, file=f.file)
+            continue
+        for key in ("iter", "smoothed_log_step_size", "adapt_stat_error"):
+            v = res.get(key)
+            r.inst({"case": case, "key": key, "value": str(v)})
+            if not _is_zero_value(v):
+                r.violate(PROP, f"{f.qualname}:{key}:{v}", f"the dual-averaging recursion must start from {key} = 0 (documented H_0 = 0, x-bar_0 = 0, m = 0); initialize gives {v}", node=f.node, file=f.file)
+        v = res.get("log_step_size_reg_target")
+        r.inst({"case": case, "key": "log_step_size_reg_target", "value": str(v)})
+        if is_none:
+            ok = isinstance(v, str) and v.replace(" ", "").startswith("log(10*self._find_and_set_init_step_size(") or isinstance(v, str) and v.replace(" ", "").startswith("log(self._find_and_set_init_step_size(") and v.replace(" ", "").endswith("*10)")
+            if not ok:
+                r.violate(PROP, f"{f.qualname}:default-target:{str(v)[:40]}", f"without a user value the regularisation target must be log(10 * init_step_size) with init_step_size the result of the initial search; initialize gives {v}", node=f.node, file=f.file)
+        elif v != opt:
+            what = "depends on the truthiness of the option (an explicit 0.0 is replaced by the default)" if v == _InitExec.TRUTHY else f"is {v}"
+            r.violate(PROP, f"{f.qualname}:user-target:{str(v)[:40]}", f"a user-supplied regularisation target must be used as given for every value; the target {what}", node=f.node, file=f.file)
+    for cls, acc in (("OnlineVarianceMetricAdapter", "sum_diff_sq"), ("OnlineCovarianceMetricAdapter", "sum_diff_outer")):
+        f = program.method(cls, "initialize")
+        ex = _InitExec("<none>", True, f.qualname)
+        res = ex.run(f.body_without_docstring())
+        if not isinstance(res, dict):
+            raise AnalysisError(f"{f.qualname}: adapter state is not a dict literal")
+        for key in ("iter", "mean", acc):
+            v = res.get(key)
+            r.inst({"class": cls, "key": key, "value": str(v)})
+            if not _is_zero_value(v):
+                r.violate(PROP, f"{f.qualname}:{key}:{str(v)[:40]}", f"the Welford recursion must start from {key} = 0; initialize gives {v}", node=f.node, file=f.file)
+    return r
+
+
 def eval_const(e):
     from ..poly import eval_expr
 
@@ -296,3 +460,4 @@ def run(rep, program: Program, tier: str) -> None:
     rule_r1(rep, program)
     rule_r2(rep, program)
     rule_r3(rep, program)
+    rule_r4(rep, program)
